@@ -661,6 +661,11 @@ func positionsPreserved(in, out []*jnode, d *int) bool {
 	}
 	for i := range in {
 		pi, po := in[i], out[i]
+		if pi.kind == 'o' {
+			// a position written as an object is outside the property's documents ("2-4 dimensional
+			// positions"); Parse reads its values in order (gjson ForEach), and so does this comparison
+			pi = &jnode{kind: 'a', arr: pi.vals}
+		}
 		if pi.kind != 'a' || po.kind != 'a' {
 			return false
 		}
